@@ -46,7 +46,7 @@ func c26Check(r *vrt.R, target string) {
 		r.ToolError("reference models disagree on %q: rfc=%q clean=%q", rawPath, want, w2)
 	}
 	if want != rawPath {
-		r.NontrivialHash(hash64(target))
+		r.NontrivialHash(c26hash(target))
 	}
 	report := func(via, got string) {
 		if got != want {
@@ -68,7 +68,7 @@ func c26Check(r *vrt.R, target string) {
 	report("RequestCtx.Path", string(ctx.Path()))
 }
 
-func hash64(s string) uint64 {
+func c26hash(s string) uint64 {
 	h := uint64(14695981039346656037)
 	for i := 0; i < len(s); i++ {
 		h ^= uint64(s[i])
